@@ -89,8 +89,10 @@ func (this *Item) action(sym string, nextState int) action.Action {
 	return action.ERROR
 }
 
+// canRecover returns true for items that expect the error symbol next, i.e. the
+// items that make their state able to shift "error".
 func (this *Item) canRecover() bool {
-	return this.Len > 0 && this.Body[0] == "error"
+	return this.ExpectedSymbol == "error"
 }
 
 // Equals weturns whether two Items are equal based on their ProdIdx, Pos and NextToken.
